@@ -1,8 +1,8 @@
 import FitModel.Bits
-import FitModel.Generated.Go_decoder
+import FitModel.Generated.Go_decoderbits
 import FitProps.Go2LeanLemmas
 /-!
-Agreement of `(*bits).Pull` GENERATED from decoder/bits.go (`Go.decoder.bits.Pull`: the in-place loop over the 32 words with
+Agreement of `(*bits).Pull` GENERATED from decoder/bits.go (`Go.decoderbits.bits.Pull`: the in-place loop over the 32 words with
 index arithmetic, `continue`, and explicit panics for every index) with the hand-written model `Fit.Bits.pull` (a stream
 over the words) that the theorems of C05 are about — for every store of 32 words and every bit size (a byte).
 -/
@@ -54,12 +54,12 @@ theorem shlTop_eq_go (hi n : Nat) (hn : n < 256) : (hi <<< ((64 + 2 ^ 8 - n) % 2
 /-- the loop invariant: entering iteration `i = done.length + 1` the store is `done ++ prev :: tail` — `done` the finished
 cells, `prev` cell `i-1` after its own right shift, `tail` the cells not yet touched — and the loop leaves
 `done ++ pullLoop n prev tail` -/
-theorem pull_loop (n : Nat) (f : Int → Go.decoder.bits → Option (ForInStep Go.decoder.bits))
+theorem pull_loop (n : Nat) (f : Int → Go.decoderbits.bits → Option (ForInStep Go.decoderbits.bits))
     (hf : ∀ (done : List Nat) (prev w : Nat) (rest : List Nat), done.length + 2 + rest.length ≤ 64 →
       f ((done.length : Int) + 1) ⟨done ++ prev :: w :: rest⟩ = some (ForInStep.yield ⟨done ++
         (if w = 0 then prev :: 0 :: rest else (prev ||| shlTop (w &&& mask n) n) :: (w >>> n) :: rest)⟩)) :
     ∀ (tail done : List Nat) (prev : Nat), done.length + 1 + tail.length ≤ 64 →
-      forIn (Go.upI ((done.length : Int) + 1) ((done.length : Int) + 1 + (tail.length : Int))) (⟨done ++ prev :: tail⟩ : Go.decoder.bits) f
+      forIn (Go.upI ((done.length : Int) + 1) ((done.length : Int) + 1 + (tail.length : Int))) (⟨done ++ prev :: tail⟩ : Go.decoderbits.bits) f
         = some ⟨done ++ pullLoop n prev tail⟩ := by
   intro tail
   induction tail with
@@ -83,12 +83,12 @@ theorem pull_loop (n : Nat) (f : Int → Go.decoder.bits → Option (ForInStep G
       simp only [hw, if_false, List.append_assoc, List.cons_append, List.nil_append] at this ⊢
       rw [this]; simp [pullLoop, hw]
 
-theorem pull_loop32 (n : Nat) (f : Int → Go.decoder.bits → Option (ForInStep Go.decoder.bits))
+theorem pull_loop32 (n : Nat) (f : Int → Go.decoderbits.bits → Option (ForInStep Go.decoderbits.bits))
     (hf : ∀ (done : List Nat) (prev w : Nat) (rest : List Nat), done.length + 2 + rest.length ≤ 64 →
       f ((done.length : Int) + 1) ⟨done ++ prev :: w :: rest⟩ = some (ForInStep.yield ⟨done ++
         (if w = 0 then prev :: 0 :: rest else (prev ||| shlTop (w &&& mask n) n) :: (w >>> n) :: rest)⟩))
     (tail : List Nat) (ht : tail.length = 31) (prev : Nat) :
-    forIn (Go.upI 1 32) (⟨prev :: tail⟩ : Go.decoder.bits) f = some ⟨pullLoop n prev tail⟩ := by
+    forIn (Go.upI 1 32) (⟨prev :: tail⟩ : Go.decoderbits.bits) f = some ⟨pullLoop n prev tail⟩ := by
   have key := pull_loop n f hf tail [] prev (by simp [ht])
   simp only [List.length_nil, Int.natCast_zero, Int.zero_add, ht, List.nil_append] at key
   rw [show ((1 : Int) + ((31 : Nat) : Int)) = 32 by decide] at key
@@ -96,11 +96,11 @@ theorem pull_loop32 (n : Nat) (f : Int → Go.decoder.bits → Option (ForInStep
 
 /-- `(*bits).Pull(bitsize)` on a 32-word store never panics and is the model's `pull`: value and new store -/
 theorem bits_pull (ws : List Nat) (hl : ws.length = 32) (n : Nat) (hn : n < 256) :
-    Go.decoder.bits.Pull ⟨ws⟩ n = some (⟨(pull ws n).2⟩, (pull ws n).1) := by
+    Go.decoderbits.bits.Pull ⟨ws⟩ n = some (⟨(pull ws n).2⟩, (pull ws n).1) := by
   match ws, hl with
   | w0 :: tail, hl =>
     have ht : tail.length = 31 := by simpa using hl
-    unfold Go.decoder.bits.Pull
+    unfold Go.decoderbits.bits.Pull
     have i0 : ∀ (x : Nat) (l : List Nat), Go.idxI (x :: l) 0 = some x := fun x l => idxI_mid [] x l
     have s0 : ∀ (x y : Nat) (l : List Nat), Go.setIdxI (x :: l) 0 y = some (y :: l) := fun x y l => setIdxI_mid [] x y l
     simp only [i0, s0, Option.bind_eq_bind, Option.bind_some, Option.pure_def, mask_eq]
